@@ -1,12 +1,12 @@
-(* C16 - property theorems only; each is closed by a lemma of Lemmas.v / Framing.v (no refutation is left: every
-   defect found for C16 has been repaired in /repo).
+(* C16 - property theorems only; each is closed by a lemma of Lemmas.v / Framing.v / Global.v / RxLemmas.v (no refutation
+   is left: every defect found for C16 has been repaired in /repo).
    `sched` ranges over every interleaving of callers and poll thread at their synchronisation points together with
    every virtual time of every step; `progs` over every set of caller programs (communicate / writeline / multicomm /
    pause with any device directive: delays, chunkings, garbage, silence, close), `rf` over every refusal script, `cb`
    over every set of registered callbacks; md = line mode with any end-of-line or byte mode. *)
 From Coq Require Import List Arith ZArith NArith Bool Lia.
 Import ListNotations.
-Require Import FV.Gen.C16 FV.C16.Model FV.C16.Run FV.C16.Framing FV.C16.Lemmas.
+Require Import FV.Gen.C16 FV.C16.Model FV.C16.Run FV.C16.Framing FV.C16.Lemmas FV.C16.Global FV.C16.RxModel FV.C16.RxLemmas.
 Open Scope Z_scope.
 
 (* obligations on the facts regenerated from /repo (Gen/C16.v): every modelled function has the statement structure
@@ -21,6 +21,8 @@ Theorem C16_source_facts :
   shape_AsynTcp_recv = true /\ shape_AsynTcp_send = true /\ shape_AsynTcp_disconnect = true /\
   lock_is_reentrant = true /\ communicate_atomic = true /\ multicomm_holds_lock = true /\
   read_is_connected_is_wrapped = true /\ trigger_all_registered = true /\
+  readline_splits_whole_buffer = true /\ readbytes_slices_prefix = true /\ flush_recv_clears_buffer = true /\
+  recv_empty_is_closed = true /\
   recv_slice_s = 1%nat /\ initial_last_attempt = 0%nat.
 Proof. repeat split; reflexivity. Qed.
 
@@ -152,6 +154,195 @@ Proof.
   split; [exact I|]. apply in_map_iff. exists (TRIGGER, CbTrue). split; [reflexivity|exact I].
 Qed.
 
+(* ================================================================== global versions (Global.v) *)
+
+(* reconnect rate, in every run: an attempt = a step after which a caller is parked at the entry of read_is_connected and
+   before which it was not (check_connection found the communicator disconnected and decided to try).  Whatever the
+   programs, refusals, callbacks, schedule and the time of every step are: the times of the attempts of the run, in the
+   order in which they are made, are at least one reconnect interval apart (the first one from the initial value 0 of
+   _last_connect_attempt; pairwise when the interval is not negative); last_attempt always holds the time of the last
+   attempt; every attempt writes it and no other step of any thread does (stated for every reachable state and step).
+   Counted are the attempts of calls (communicate / writeline / multicomm through check_connection), which is what the
+   rate limit of the code governs; the poll thread's own read of is_connected (doPoll, paced by its poll interval, C13)
+   does not pass check_connection and never writes last_attempt (second clause: a poll step is never an attempt) *)
+Theorem C16_reconnect_rate_global : forall md timeout interval slice progs rf cb poller sched,
+  let st0 := init progs rf cb poller in
+  let st := run md timeout interval slice st0 sched in
+  let att := attempts md timeout interval slice st0 sched in
+  spaced interval (0 :: att) /\
+  (0 <= interval -> ForallOrdPairs (fun a b => a + interval <= b) att) /\
+  last_attempt (sh st) = last att 0 /\
+  (forall x, let st' := step md timeout interval slice st x in
+     (is_attempt md timeout interval slice st x = true ->
+        last_attempt (sh st) + interval <= time_of x /\ last_attempt (sh st') = time_of x /\ connected (sh st') = false) /\
+     (is_attempt md timeout interval slice st x = false -> last_attempt (sh st') = last_attempt (sh st))).
+Proof.
+  intros md timeout interval slice progs rf cb poller sched st0 st att.
+  destruct (attempts_spaced md timeout interval slice sched st0) as [S L].
+  change (last_attempt (sh st0)) with 0 in S, L. fold att in S, L. fold st in L.
+  split; [exact S|]. split; [|split; [exact L|intros x; apply la_step]].
+  intros NN. apply spaced_pairs; [exact NN|]. destruct att as [|a l]; [exact I|]. simpl in S. apply S.
+Qed.
+
+(* connection state visible, in every reachable state: is_connected = (the connection object exists) = the value
+   announced last; and a step in which a call fails (an RFail is appended to the outcomes of the caller) leaves the
+   communicator disconnected - visibly so - with one exception, which the code makes: the time-out of a call on a
+   silent device (deadline reached, nothing readable) keeps the connection and stores the error text *)
+Theorem C16_state_visible_global : forall md timeout interval slice progs rf cb poller sched,
+  let st := run md timeout interval slice (init progs rf cb poller) sched in
+  (connected (sh st) = conn (sh st) /\ last (ann (sh st)) false = connected (sh st)) /\
+  (forall i now nxt c c' mid,
+     nth_error (callers st) i = Some c ->
+     nth_error (callers (step md timeout interval slice st (TC i, now, nxt))) i = Some c' ->
+     outs c' = outs c ++ mid -> In RFail mid ->
+     let s' := sh (step md timeout interval slice st (TC i, now, nxt)) in
+     (connected s' = false /\ conn s' = false /\ last (ann s') false = false) \/
+     (exists e sl, pc c = CRecv e sl /\ e <= now /\ head_ready now (queue (sh st)) = false /\
+                   connected s' = connected (sh st) /\ last_error s' = true)).
+Proof.
+  intros md timeout interval slice progs rf cb poller sched st.
+  pose proof (conn_inv_run md timeout interval slice progs rf cb poller sched) as CI. fold st in CI.
+  split; [exact (proj1 CI)|].
+  intros i now nxt c c' mid Ci Ci' E I s'.
+  pose proof (vis_step md timeout interval slice st (TC i, now, nxt) (proj1 CI)) as [V1 V2]. fold s' in V1, V2.
+  destruct (failed_call_disconnects md timeout interval slice st i now nxt c c' mid CI Ci Ci' E I) as [D|T].
+  - left. fold s' in D. rewrite <- V1, V2. auto.
+  - right. exact T.
+Qed.
+
+(* accessLock: in every reachable state at most one thread is inside the connecting branch of read_is_connected, it owns
+   accessLock, and is_connected is False as long as it is there (nobody else can connect meanwhile) *)
+Theorem C16_connect_exclusive : forall md timeout interval slice progs rf cb poller sched,
+  let st := run md timeout interval slice (init progs rf cb poller) sched in
+  (forall i j ci cj, nth_error (callers st) i = Some ci -> nth_error (callers st) j = Some cj ->
+     pc ci = CConnect -> pc cj = CConnect -> i = j) /\
+  (forall i ci, nth_error (callers st) i = Some ci -> pc ci = CConnect ->
+     poll st <> QConnect /\ acc_owner (sh st) = Some (TC i) /\ connected (sh st) = false) /\
+  (poll st = QConnect -> acc_owner (sh st) = Some TP /\ connected (sh st) = false).
+Proof.
+  intros md timeout interval slice progs rf cb poller sched st.
+  destruct (conn_inv_run md timeout interval slice progs rf cb poller sched) as [_ (A1 & A2 & A3)]. fold st in A1, A2, A3.
+  repeat split.
+  - intros i j ci cj Hi Hj Pi Pj. pose proof (A1 i ci Hi Pi) as E1. rewrite (A1 j cj Hj Pj) in E1. congruence.
+  - intros Q. pose proof (A1 i ci H H0) as E1. rewrite (A2 Q) in E1. discriminate.
+  - eapply A1; eauto.
+  - apply A3. rewrite (A1 i ci H H0). discriminate.
+  - apply A2. assumption.
+  - apply A3. rewrite (A2 H). discriminate.
+Qed.
+
+(* ================================================================== the receive layer (RxModel.v, RxLemmas.v) *)
+
+(* readline, full chunking independence: for every non-empty end-of-line, two socket queues that deliver the same byte
+   stream (cut into chunks anywhere - also inside a multi-byte end-of-line - arriving at any times), read by any two
+   scripts of readline calls (any time-outs, pauses, slices, cut-offs; calls may fail with a time-out in between and the
+   buffer survives): once everything has been taken from the socket and no complete line is left in the buffer, the
+   sequences of lines returned are equal and the final buffers are equal *)
+Theorem C16_readline_chunking_full :
+  forall eol slice1 slice2 calls1 calls2 now1 now2 buf q1 q2 rs1 rs2 b1 b2 q1' q2',
+  eol <> [] -> stream q1 = stream q2 ->
+  rl_run eol slice1 calls1 now1 buf q1 = (rs1, (b1, q1')) -> stream q1' = [] -> split_eol eol b1 = None ->
+  rl_run eol slice2 calls2 now2 buf q2 = (rs2, (b2, q2')) -> stream q2' = [] -> split_eol eol b2 = None ->
+  lines_of rs1 = lines_of rs2 /\ b1 = b2.
+Proof. exact chunking_full. Qed.
+
+(* ... namely the lines of buffer ++ stream, and the incomplete rest; at any earlier moment the lines returned so far
+   followed by the lines of (buffer ++ what the socket still delivers) are the lines of the whole *)
+Theorem C16_readline_returns_the_lines_of_the_stream :
+  forall eol slice calls now buf q rs buf' q', eol <> [] ->
+  rl_run eol slice calls now buf q = (rs, (buf', q')) ->
+  (stream q' = [] -> split_eol eol buf' = None -> parsed eol (buf ++ stream q) (lines_of rs) buf') /\
+  (forall ls t, parsed eol (buf' ++ stream q') ls t -> parsed eol (buf ++ stream q) (lines_of rs ++ ls) t).
+Proof.
+  intros. split; [intros; eapply rl_run_parsed; eauto|intros; eapply rl_run_prefix; eauto].
+Qed.
+
+(* one call: what readline / readbytes take from the socket is a prefix of the queue consisting of chunks; a returned
+   line is the split of (buffer ++ these chunks) at the first end-of-line, the rest stays in the buffer; a failed call
+   keeps everything it received in the buffer *)
+Theorem C16_readline_takes_chunks : forall fuel eol slice endt now buf q res t buf' q',
+  readline_loop fuel eol slice endt now buf q = (res, t, buf', q') ->
+  exists taken, q = taken ++ q' /\ Forall is_chunk taken /\
+    match res with
+    | UData l => split_eol eol (buf ++ payload taken) = Some (l, buf')
+    | _ => buf' = buf ++ payload taken
+    end.
+Proof. exact readline_loop_took. Qed.
+
+Theorem C16_readbytes_takes_chunks : forall fuel n slice endt now buf q res t buf' q',
+  readbytes_loop fuel n slice endt now buf q = (res, t, buf', q') ->
+  exists taken, q = taken ++ q' /\ Forall is_chunk taken /\
+    match res with
+    | UData l => frame_n n (buf ++ payload taken) = Some (l, buf')
+    | _ => buf' = buf ++ payload taken
+    end.
+Proof. exact readbytes_loop_took. Qed.
+
+(* flush_recv on a first-in-first-out socket queue: afterwards _rxbuffer is empty, everything that had arrived is gone from
+   the socket (and was returned as garbage together with the old buffer), everything left arrives later; and whatever a
+   later readline / readbytes returns and leaves in the buffer consists only of chunks that arrived after the flush *)
+Theorem C16_flush_empties : forall now buf q g buf' q', fifo q -> tcp_flush now buf q = (UData g, buf', q') ->
+  buf' = [] /\
+  (exists gone, q = gone ++ q' /\ Forall is_chunk gone /\ Forall (fun it => arrival_of it <= now) gone /\
+                g = buf ++ payload gone) /\
+  Forall (fun it => now < arrival_of it) q' /\
+  (forall fuel eol slice endt now2 l t b2 q2,
+     readline_loop fuel eol slice endt now2 buf' q' = (UData l, t, b2, q2) ->
+     exists taken, q' = taken ++ q2 /\ Forall is_chunk taken /\ Forall (fun it => now < arrival_of it) taken /\
+                   payload taken = l ++ eol ++ b2) /\
+  (forall fuel n slice endt now2 l t b2 q2,
+     readbytes_loop fuel n slice endt now2 buf' q' = (UData l, t, b2, q2) ->
+     exists taken, q' = taken ++ q2 /\ Forall is_chunk taken /\ Forall (fun it => now < arrival_of it) taken /\
+                   payload taken = l ++ b2 /\ length l = n).
+Proof. exact flush_empties. Qed.
+
+(* the flush loop is `while select: recv` (each pass one AsynTcp.recv that returns at once), and it is the flush of the
+   transition system *)
+Theorem C16_flush_loop_is_select_recv : forall slice now q acc, 0 <= slice ->
+  (sock_readable now q = true ->
+     flush_loop now q acc = match tcp_recv slice now q with
+                            | (RxData d, _, q') => flush_loop now q' (acc ++ d)
+                            | (_, _, _) => (None, q)
+                            end /\ snd (fst (tcp_recv slice now q)) = now) /\
+  (sock_readable now q = false -> flush_loop now q acc = (Some acc, q)) /\
+  (Forall no_empty_chunk q ->
+     match flush_loop now q acc with
+     | (Some _, q') => flush now q = (false, q')
+     | (None, q') => flush now q = (true, q')
+     end).
+Proof.
+  intros. split; [intros; apply flush_loop_pass; assumption|].
+  split; [apply flush_loop_stops|apply flush_is_model_flush].
+Qed.
+
+(* the receive loops end: with a slice of at least one tick the pass budget of readline / readbytes is never used up *)
+Theorem C16_receive_loops_terminate : forall slice timeout now buf q, 1 <= slice ->
+  (forall eol, fst (fst (fst (readline eol slice timeout now buf q))) <> UFuel) /\
+  (forall n, fst (fst (fst (readbytes n slice timeout now buf q))) <> UFuel).
+Proof. intros. split; intros; [apply readline_terminates|apply readbytes_terminates]; assumption. Qed.
+
+(* non-vacuity: "ab\r\ncd\r\nx" cut in two ways (inside the end-of-line, with empty slices in between), read by different
+   scripts *)
+Example C16_chunking_example :
+  let eol := [13; 10]%N in
+  let q1 := [mkItem 0 (Some [97; 98; 13]%N); mkItem 1 (Some [10; 99; 100; 13; 10]%N); mkItem 20 (Some [120]%N)] in
+  let q2 := [mkItem 0 (Some [97]%N); mkItem 0 (Some [98; 13; 10; 99]%N); mkItem 5 (Some [100; 13]%N);
+             mkItem 30 (Some [10; 120]%N)] in
+  let calls1 := [(50%nat, 0, None); (50%nat, 0, None); (50%nat, 0, None); (50%nat, 0, None); (50%nat, 0, None)] in
+  let calls2 := [(50%nat, 0, Some 16); (50%nat, 3, Some 60); (50%nat, 0, Some 90)] in
+  stream q1 = stream q2 /\
+  rl_run eol 8 calls1 0 [] q1 = ([UData [97; 98]%N; UData [99; 100]%N; UNone; UNone; UNone], ([120]%N, [])) /\
+  rl_run eol 8 calls2 0 [] q2 = ([UData [97; 98]%N; UData [99; 100]%N; UTimeout], ([120]%N, [])).
+Proof. vm_compute. repeat split; reflexivity. Qed.
+
+Example C16_attempts_example :
+  let x := {| x_id := 1; x_emit := []; x_close := None; x_n := 0; x_delay := 0; x_noreply := false |} in
+  let progs := [[OSingle x; OPause 4; OSingle x; OPause 40; OSingle x]] in
+  let sched := [(TC 0%nat, 100, false); (TC 0%nat, 100, false); (TC 0%nat, 100, false); (TC 0%nat, 104, false);
+                (TC 0%nat, 144, false)] in
+  attempts MBytes 16 32 8 (init progs [true; true] [] false) sched = [100; 144].
+Proof. vm_compute. reflexivity. Qed.
+
 Print Assumptions C16_source_facts.
 Print Assumptions C16_mutual_exclusion.
 Print Assumptions C16_transaction_atomic.
@@ -166,3 +357,13 @@ Print Assumptions C16_state_visible.
 Print Assumptions C16_callbacks_once.
 Print Assumptions C16_error_stored_while_disconnected.
 Print Assumptions C16_polling_resumes.
+Print Assumptions C16_reconnect_rate_global.
+Print Assumptions C16_state_visible_global.
+Print Assumptions C16_connect_exclusive.
+Print Assumptions C16_readline_chunking_full.
+Print Assumptions C16_readline_returns_the_lines_of_the_stream.
+Print Assumptions C16_readline_takes_chunks.
+Print Assumptions C16_readbytes_takes_chunks.
+Print Assumptions C16_flush_empties.
+Print Assumptions C16_flush_loop_is_select_recv.
+Print Assumptions C16_receive_loops_terminate.
